@@ -48,7 +48,8 @@ def recv_term(v):
 
 
 STRS = [b"", b"a", b"hello world", b"\xff", b"\xfe", b"\xc3\x9c", b"a\"b", b"<&>", b"a,b", b"]", b"[1,2]",
-        b"\x00", b"\xe2\x80\xa8", b"\\u00ff", b"true", b"5", b"null", b"\xff\xfe", b"\xf0\x9f\x98\x80", b"\xed\xa0\x80"]
+        b"\x00", b"\xe2\x80\xa8", b"\\u00ff", b"true", b"5", b"null", b"\xff\xfe", b"\xf0\x9f\x98\x80", b"\xed\xa0\x80",
+        b"-X main.version=1.2.3 -X main.commit=0123456789abcdef0123456789abcdef01234567", b"x" * 41, b"./a/very/deep/directory/structure/of/a/project/cmd/tool/" + b"y" * 200]
 
 
 def gen_val(rng, t, salt=None):
@@ -175,6 +176,11 @@ def run(ctx):
     import extractlib; extractlib.tables_tie(ctx, ['mg.argTypes'])   # literal data of the source re-proved equal to the models' (DESIGN 3.5)
     ctx.trusted_base += ["harness/unitrun (Go, reflection-free pool of functions generated by gen.py)",
                          "checks/c14.py (generator, Coq term printer, oracle)", "Go's reflect package behaves as Model/FnCheck.v's view of function types"]
+    # identity by function NAME: functions whose runtime names differ only by the escaping of a dot in the import
+    # path, instantiations of a generic function (known finding F23 is C01's) - probes of harness/depsrun
+    go_build_harness(ctx, "depsrun")
+    from checks.c01 import contention
+    contention(ctx, parts=("escaped", "custom"), rounds=50)
     binp = go_build_harness(ctx, "unitrun")
     sigs = json.load(open(os.path.join(ctx.tmp, "src_unitrun", "pool.json")))
     n = 3000 if ctx.quick else 60000
@@ -229,7 +235,7 @@ def run(ctx):
         elif s["variadic"]:
             vt = s["ins"][-1]
             b = b + [gen_val(rng, vt)]
-        pairs.append({"op": "pair", "fn": fn, "a": a, "b": b})
+        pairs.append({"op": "pair", "fn": fn, "a": a, "b": b, "verbose": rng.random() < 0.5})
     if ctx.replay and ctx.replay.get("pair"):
         pairs = [ctx.replay["pair"]] + pairs[:20]
 
@@ -297,6 +303,12 @@ def run(ctx):
             bad = "ids %s but argument lists %s" % ("equal" if a["ideq"] else "differ", "equal" if same else "differ")
         elif a["execs"] != (1 if same else 2):
             bad = "%d executions for %s argument lists" % (a["execs"], "equal" if same else "different")
+        else:
+            # run through mg.Deps (verbose or not): each execution received exactly the argument values of its mg.F
+            got = sorted(json.dumps([canon_recv(v) for v in r]) for r in (a.get("received") or []))
+            exp = sorted(json.dumps(oracle_received(sigs[p["fn"]], [norm_val(v) for v in x])) for x in ([p["a"]] if same else [p["a"], p["b"]]))
+            if got != exp:
+                bad = "run through mg.Deps%s the functions received %s, expected %s" % (" with MAGEFILE_VERBOSE=1" if p.get("verbose") else "", got, exp)
         if not same:
             pn += 1
         if bad:
